@@ -411,7 +411,9 @@ func (c *Check) issueDecision(rule string) {
 		af := n.pa.AllFacts()
 		var ps string
 		if n.issue && n.issueEv != nil {
-			ps = n.issueEv.CI.args[2].String()
+			if li := c.providerListArg(u.BS, n.issueEv); li != nil {
+				ps = li.String()
+			}
 		}
 		if n.issue {
 			_, a := hasFact(af, "(nonempty "+ps+")", false)
